@@ -37,6 +37,7 @@ type Scenario struct {
 	Separate  bool  `json:"separate"`  // explicit syncs go to the last publisher, which is never announced
 	Faults    int   `json:"faults"`    // block requests answered with status 500 (seeded choice), failed heads are announced again
 	XCancel   bool  `json:"xcancel"`   // explicit syncs run under a context that is cancelled at a random point
+	Scoped    bool  `json:"scoped"`    // explicit syncs bring their own (scoped) block hook
 	Seed      int64 `json:"seed"`
 }
 
@@ -165,6 +166,7 @@ func Execute(sc Scenario, pubs []*chain.Pub) (log []gate.Event, key, detail stri
 	}
 	regLeft, cancelLeft, closeLeft := sc.Listeners, sc.Cancels, sc.Closers
 	var xcancels []context.CancelFunc // contexts of explicit syncs not cancelled yet
+	xnum := 0
 	available := func() []envAction {
 		todo = todo[:0]
 		if r.closed {
@@ -267,8 +269,24 @@ func Execute(sc Scenario, pubs []*chain.Pub) (log []gate.Event, key, detail stri
 					xctx, cf = context.WithCancel(ctx)
 					xcancels = append(xcancels, cf)
 				}
+				var sopts []dagsync.SyncOption
+				xnum++
+				xk := xnum
+				if sc.Scoped {
+					// the sync's own block hook: it must see exactly the blocks of this sync
+					sopts = append(sopts, dagsync.ScopedBlockHook(func(pid peer.ID, c cid.Cid, actions dagsync.SegmentSyncActions) {
+						pn := r.pnum(pid)
+						s.RecordG(gate.Event{Ev: "hook", P: pn, C: r.cnum(pn, c), N: xk})
+						actions.SetNextSyncCid(pubs[pn-1].Chain.Prev(c))
+					}))
+				}
 				s.Go("explicit", func() {
-					c, err := r.sub.SyncAdChain(xctx, p.AddrInfo())
+					own := 0
+					if sc.Scoped {
+						own = xk
+					}
+					s.RecordG(gate.Event{Ev: "env.explicit.start", P: a.p, N: own})
+					c, err := r.sub.SyncAdChain(xctx, p.AddrInfo(), sopts...)
 					s.RecordG(gate.Event{Ev: "env.explicit.ret", P: a.p, C: r.cnum(a.p, c), Err: err != nil})
 				})
 			case "reg":
@@ -459,7 +477,7 @@ func Run(args []string) *rep.Report {
 	procs := fs.Int("procs", runtime.NumCPU(), "worker processes")
 	count := fs.Int("count", 100, "scenarios in total")
 	seed := fs.Int64("seed", 1, "base seed")
-	family := fs.String("family", "announce", "announce | mixed | listeners | close | faults | stall")
+	family := fs.String("family", "announce", "announce | mixed | scoped | listeners | close | faults | stall")
 	stallAds := fs.Int("stall-ads", 90, "advertisements of the long chain of family stall")
 	fs.Parse(args)
 	if *shard == "" {
@@ -503,9 +521,13 @@ func Run(args []string) *rep.Report {
 	for i := si; i < *count; i += sn {
 		sc := Scenario{Seed: *seed*100003 + int64(i), Pubs: 1 + i%2, Ads: 3, Sem: i % 3}
 		switch *family {
-		case "mixed":
+		case "mixed", "scoped":
 			sc.Explicit = 1
 			sc.XCancel = i%4 == 3
+			sc.Scoped = *family == "scoped"
+			if sc.Scoped {
+				sc.Explicit = 1 + i%2
+			}
 		case "faults":
 			sc.Faults = 1 + i%3
 			sc.Listeners = i % 2
